@@ -545,7 +545,7 @@ class AsyncCheck(SeqCheck):
         stats, divs = seqsuite.run(ctx, runner, self.suites(ctx), mode='async', satlog=satlog)
         extra = {}
         if self.wake_oracle: extra = self.wake_check(ctx, satlog)
-        if ctx.prop == 'C14':
+        if ctx.prop in ('C14', 'C15'):
             # futures of iterators created by EVERY async split, the by-value splits of a stack buffer that was used before included
             # (fresh async iterators against the indices of the previous session would resolve with items nobody produced)
             c18_splitprobe(ctx, runner, stats, divs)
@@ -785,6 +785,8 @@ class ConcCheck(SeqCheck):
             return run_drop_suite(self, ctx, stats)
         run_script_suite(self, ctx, stats)
         if ctx.prop == 'C10': run_waitprobe(ctx, stats)
+        # C03: an emptiness test that looks beyond its own cell reads slots another stage holds
+        if ctx.prop == 'C03': run_cellprobe(ctx, stats)
         self.send_bad = []
         if ctx.prop in ('C02', 'C03'):
             # "safe programs are free of data races": an iterator of a LOCAL buffer (plain cells, no release/acquire) must not be able
@@ -824,7 +826,7 @@ class ConcCheck(SeqCheck):
                 if e != a and e.split(':')[:2] == a.split(':')[:2]:
                     if e.startswith('ld:') and e.split(':')[1] in 'PWC' and 'idx_load' not in weak and ':rlx:' in a + ':': weak.append('idx_load')
                     if e.startswith('st:') and 'idx_store' not in weak and ':rlx:' in a + ':': weak.append('idx_store')
-        relevant = {'C02': ('idx_load', 'idx_store'), 'C03': ('idx_load', 'idx_store'), 'C07': ('alive_rmw',), 'C10': ()}[ctx.prop]
+        relevant = {'C02': ('idx_load', 'idx_store'), 'C03': ('idx_load', 'idx_store', 'alive_rmw'), 'C07': ('alive_rmw',), 'C10': ()}[ctx.prop]
         for w in weak:
             if w in relevant:
                 term, story = WITNESS[w]
@@ -931,6 +933,9 @@ def c17_extra(ctx, seqrun, stats, divs):
         divs += d3; stats.steps += astats.steps; stats.histories += astats.histories; stats.distinct |= astats.distinct
         ctx.notes['vmem_async_suite'] = astats.summary()
     c17_pagemul(ctx, seqrun, stats, divs)
+    # "all other properties hold unchanged": the slot primitives (emptiness test over all bytes of every item size) decide what the release
+    # of the mapping destroys
+    if not ctx.violations: run_cellprobe(ctx, stats)
 
 def c17_pagemul(ctx, seqrun, stats, divs):
     """requested minimum -> length: `get_page_size_mul(n)` and the length of `default(n)` / `new_zeroed(n)` buffers of the vmem build
@@ -992,4 +997,4 @@ CHECKS['C17'] = VmemCheck('C17', lambda d: True,
     'Theorems (Coq): the call sequence of vmem_helper::new regenerated from the source builds two views of one shared object at offset 0 that holds the supplied data (C17_source_closed, C17_mirror), '
     'page rounding is the least multiple (C17_round), a contiguous window resolves to the ring slots (C17_slice), the release drops items once before unmapping both halves. '
     'Tie: the whole sequential correspondence on a --features vmem build (1-3 pages, element sizes 4/8/16/24 bytes, histories positioned at the physical end: single mirrored slices, '
-    'initial contents, ledger, /proc/self/maps after release; async histories on the vmem + async build).', extra=c17_extra, propfiles=['Props/C17.v', 'Props/DTieV.v'])
+    'initial contents, ledger, /proc/self/maps after release; async histories on the vmem + async build).', extra=c17_extra, propfiles=['Props/C17.v', 'Props/DTieV.v', 'Props/CTie.v'])
